@@ -29,21 +29,22 @@ Proof.
 Qed.
 
 Lemma r_field_begin_compact_pfield s h s' :
-  r_field_begin PCompact s = Ok (h, s') -> r_pfield (rc s') = r_pfield (rc s).
+  r_field_begin PCompact s = Ok (h, s') -> r_pfield (rc s') = false.
 Proof.
-  cbn [r_field_begin]. destruct (r_byte s) as [[b s1]| |] eqn:Eb; cbn [bind]; try discriminate.
-  apply r_byte_rc in Eb. rewrite <- Eb.
+  cbn [r_field_begin]. generalize (eq_refl : r_pfield (rc (clear_pfield s)) = false).
+  generalize (clear_pfield s). clear s. intros s Hs.
+  destruct (r_byte s) as [[b s1]| |] eqn:Eb; cbn [bind]; try discriminate.
+  apply r_byte_rc in Eb. rewrite <- Eb in Hs. clear Eb s.
   match goal with |- context [bind ?e _] => destruct e as [[ty s2]| |] eqn:E2 end; cbn [bind]; try discriminate.
-  assert (H2 : r_pfield (rc s2) = r_pfield (rc s1)).
-  { destruct (b mod 16 =? ctype_code CBooleanTrue); [injection E2 as <- <-; reflexivity|].
-    destruct (b mod 16 =? ctype_code CBooleanFalse); [injection E2 as <- <-; reflexivity|].
+  assert (H2 : r_pfield (rc s2) = false).
+  { destruct (b mod 16 =? ctype_code CBooleanTrue); [injection E2 as <- <-; exact Hs|].
+    destruct (b mod 16 =? ctype_code CBooleanFalse); [injection E2 as <- <-; exact Hs|].
     destruct (ctype_of_code (b mod 16)) as [ct|]; [|discriminate].
-    destruct (ttype_of_ctype ct); [|discriminate]. injection E2 as <- <-. reflexivity. }
-  rewrite <- H2.
-  destruct ty; try (intros H; injection H as <- <-; reflexivity).
-  all: destruct (negb (b / 16 =? 0)); [intros H; injection H as <- <-; reflexivity|].
+    destruct (ttype_of_ctype ct); [|discriminate]. injection E2 as <- <-. exact Hs. }
+  destruct ty; try (intros H; injection H as <- <-; exact H2).
+  all: destruct (negb (b / 16 =? 0)); [intros H; injection H as <- <-; exact H2|].
   all: destruct (r_i16 PCompact s2) as [[i s3]| |] eqn:E3; cbn [bind]; try discriminate.
-  all: apply r_i16c_rc in E3; intros H; injection H as <- <-; cbn [set_rc rc r_pfield]; rewrite E3; reflexivity.
+  all: apply r_i16c_rc in E3; intros H; injection H as <- <-; cbn [set_rc rc r_pfield]; rewrite E3; exact H2.
 Qed.
 
 Lemma r_bool_pfield s :
@@ -414,8 +415,7 @@ Section Round.
       destruct (Hr1 r rcx (Hlast eq_refl) Hi) as (sx & Hfb & Hrb).
       exists sx, 0, (set_rc sx (mkR (r_last (rc sx)) (r_stack (rc sx)) (r_pbool (rc sx)) true)).
       split; [exact Hfb|]. split.
-      + unfold r_field_begin_len. rewrite (r_field_begin_compact_pfield _ _ _ Hfb). cbn [rc].
-        rewrite (proj2 Hi). reflexivity.
+      + unfold r_field_begin_len. rewrite (r_field_begin_compact_pfield _ _ _ Hfb). reflexivity.
       + destruct f as [|f]; [cbn [vsize] in Hf; lia|]. rewrite gen_decode_S, Eres.
         rewrite r_bool_pfield, Hrb. cbn [bind fill_defaults rlast_upd].
         rewrite (proj1 Hi), (proj2 Hi). reflexivity.
@@ -432,7 +432,7 @@ Section Round.
       intros f r rcx Hf Hi Hlast. rewrite app_nil_r, flat_app, <- app_assoc.
       destruct (r_fbl_nonbool p (ttype_of_ty S t) id (mkS (flat s2 ++ r) (rlast_upd p id rcx)) Hnb Hok) as (n & Hn).
       exists (mkS (flat s2 ++ r) (rlast_upd p id rcx)), n, (mkS (flat s2 ++ r) (rlast_upd p id rcx)).
-      split; [apply Hr1; auto|]. split; [exact Hn|].
+      split; [apply Hr1; auto; exact (proj2 Hi)|]. split; [exact Hn|].
       apply Hr2; auto. apply idle_rlast_upd. exact Hi.
   Qed.
 
@@ -458,7 +458,7 @@ Section Round.
     - exists [], c. split; [reflexivity|]. repeat split; auto.
       intros f n r rcx vars _ Hn Hi Hlast. destruct n as [|n]; [cbn in Hn; lia|].
       cbn [flat map concat app dec_fields apply_fields].
-      destruct (proj2 (w_field_stop_ok p c Hp) r rcx) as (oid & Hs). rewrite Hs. cbn [bind fst ttype_eqb].
+      destruct (proj2 (w_field_stop_ok p c Hp) r rcx (proj2 Hi)) as (oid & Hs). rewrite Hs. cbn [bind fst ttype_eqb].
       rewrite r_field_stop_len_idle by exact Hi. cbn [bind]. f_equal. f_equal. f_equal.
       destruct p; cbn [rlast_upd]; auto. rewrite <- (Hlast eq_refl). symmetry. apply rctx_eta.
     - inversion HF as [|? ? Hx Hxs]; subst. inversion HK as [|? ? (g & Hg & Hok & Hty) HKs]; subst.
@@ -603,7 +603,7 @@ Section Round.
       destruct fuel as [|f]; [cbn [vsize] in Hf; lia|].
       rewrite gen_decode_S, Eres, Elk. rewrite flat_copy. cbn [app].
       rewrite frame_rbegin. cbn [bind dec_variants].
-      destruct (proj2 (w_field_stop_ok p c Hp) r (rc1 rcx)) as (oid & Hs). rewrite Hs. cbn [bind fst ttype_eqb].
+      destruct (proj2 (w_field_stop_ok p c Hp) r (rc1 rcx) (proj2 (rc1_idle _ Hi))) as (oid & Hs). rewrite Hs. cbn [bind fst ttype_eqb].
       rewrite r_field_stop_len_idle by (apply rc1_idle; exact Hi). cbn [bind].
       assert (Hre : r_struct_end p (mkS r (rc1 rcx)) = Ok (tt, mkS r rcx)).
       { pose proof (frame_rend r (r_last (rc1 rcx)) rcx) as E.
@@ -636,7 +636,7 @@ Section Round.
         as (sx & nn & sy & Hfb & Hfbl & Hdec).
       rewrite Hfb. cbn [bind fst snd]. rewrite (ttype_ok_nonstop _ Hto). rewrite Hfbl. cbn [bind].
       rewrite Ev, Evoid. rewrite Hdec. cbn [bind].
-      destruct (proj2 (w_field_stop_ok p c Hp) r (rlast_upd p id (rc1 rcx))) as (oid & Hs). rewrite Hs.
+      destruct (proj2 (w_field_stop_ok p c Hp) r (rlast_upd p id (rc1 rcx)) (proj2 (idle_rlast_upd _ _ _ (rc1_idle _ Hi)))) as (oid & Hs). rewrite Hs.
       cbn [bind fst ttype_eqb].
       rewrite r_field_stop_len_idle by (apply idle_rlast_upd, rc1_idle; exact Hi). cbn [bind].
       rewrite frame_rend. cbn [bind]. reflexivity.
